@@ -565,3 +565,10 @@ Definition fault_free (l : label) : bool :=
   | LRemoteRemove _ _ => false
   | _ => true
   end.
+
+(* ---- Manager.syncPool (pkg/eni/manager.go): the watermark arithmetic of one balancer pass over the node's totals ---- *)
+Definition bal_todel (idle mx : Z) : Z := idle - mx.                         (* > 0: that many idle addresses are disposed *)
+Definition bal_want (idle inuse mn tot : Z) : Z :=                           (* pre-heat requests issued *)
+  if tot <=? idle + inuse then 0 else Z.max 0 (mn - idle).
+(* the reserve once the disposals and the pre-heat requests of the pass have all been carried out *)
+Definition bal_after (idle inuse mn mx tot : Z) : Z := idle - Z.max 0 (bal_todel idle mx) + bal_want idle inuse mn tot.
